@@ -174,7 +174,20 @@ def explain (g : Graph) (km : KindMap) (q : Cy.Query) (ordered : Bool) (bagCols 
         [cand.getD i "", cand.getD j "", cand.getD k ""])))
       match triples.find? (fun ns => agreesUnder (mk ns)) with
       | some ns => ns
-      | none => if small then [] else ["?over-budget"]
+      | none =>
+        if !small then ["?over-budget"] else
+        -- four interacting deviations: only on very small graphs, among the switches that change the result in some pair
+        if g.edges.length > 4 || g.nodes.length > 3 then [] else
+        let live := cand.filter (fun n => pairs.any (fun ns => ns.contains n &&
+          (match Cy.evalKeyed (mk ns) g q with
+           | .ok (_, rows) => some (renderRows (rows.map (fun r => r.1.map (Cy.CVal.toR g km)))) != base
+           | .error _ => true)))
+        let li := List.range live.length
+        let quads := li.flatMap (fun i => (li.filter (· > i)).flatMap (fun j => (li.filter (· > j)).flatMap (fun k => (li.filter (· > k)).map (fun l =>
+          [live.getD i "", live.getD j "", live.getD k "", live.getD l ""]))))
+        match quads.find? (fun ns => agreesUnder (mk ns)) with
+        | some ns => ns
+        | none => []
 
 def compareOn (km : KindMap) (params : List (String × Val)) (q : Cy.Query) (s : Stmt) (ordered : Bool) (bagCols : List Nat) (g : Graph) : Outcome :=
   match Cy.evalKeyed Cy.Quirks.none g q with
@@ -192,6 +205,11 @@ def compareOn (km : KindMap) (params : List (String × Val)) (q : Cy.Query) (s :
       if sameRows g km ordered bagCols crows sr then .agree
       else
         let ex := explain g km q ordered bagCols sr
+        -- no switch combination reproduces the SQL rows, but both sides hold the same SET of rows: only multiplicities differ
+        let crS := crows.map (fun r => canonBags bagCols (r.1.map (Cy.CVal.toR g km)))
+        let srS := sr.map (canonBags bagCols)
+        let ex := if ex.isEmpty && !crS.isEmpty && crS.all (fun r => srS.any (rowEq r)) && srS.all (fun r => crS.any (rowEq r))
+          then ["multiplicity-only"] else ex
         .differ ex s!"graph={renderGraph g} cy={(renderRows cr).replace " " "_"} sql={(renderRows sr).replace " " "_"}"
 
 def kindMapOf : Sexp → Option KindMap
@@ -262,8 +280,11 @@ def bagColumns (q : Cy.Query) : List Nat :=
       | .var v => if names.contains v then some p.1 else none
       | _ => none)
 
+/-- a projection whose items are all aggregates returns exactly one row: any SKIP / LIMIT on it is deterministic -/
+def singleRow (p : Cy.Projection) : Bool := !p.items.isEmpty && p.items.all (fun it => (Cy.aggCall? it.e).isSome ||
+  (match it.e with | .fn _ _ [inner] => (Cy.aggCall? inner).isSome | _ => false))
 /-- SKIP / LIMIT without ORDER BY picks an arbitrary subset in both languages: results are not comparable -/
-def unorderedCut (p : Cy.Projection) : Bool := (p.skip.isSome || p.limit.isSome) && p.orderBy.isEmpty
+def unorderedCut (p : Cy.Projection) : Bool := (p.skip.isSome || p.limit.isSome) && p.orderBy.isEmpty && !singleRow p
 /-- ORDER BY a collect(...) value: the element order inside the collected list is unspecified in both languages -/
 def ordersByCollect (names : List String) (p : Cy.Projection) : Bool :=
   let aliases := names ++ p.items.filterMap (fun it => match Cy.aggCall? it.e, it.alias with
@@ -295,6 +316,13 @@ def graphAllowed (q : Cy.Query) (g : Graph) : Bool :=
   else if w == 3 then g.edges.length ≤ 4 && g.nodes.length ≤ 4
   else g.edges.length ≤ 3 && g.nodes.length ≤ 3
 
+/-- the graphs a query is evaluated on: the hand-made family always (up to pattern weight 6: they have at most 5 edges), the generated ones
+within the budget -/
+def graphsWithin (q : Cy.Query) (gseed nrandom exN exE : Nat) : List Graph :=
+  (if patternWeight q ≤ 6 then GraphGen.fixedGraphs else GraphGen.fixedGraphs.filter (graphAllowed q)) ++
+  (((List.range nrandom).map (fun i => GraphGen.randomGraph (gseed * 1000 + i)) ++
+    (if exN == 0 then [] else GraphGen.exhaustiveUpTo exN exE)).filter (graphAllowed q))
+
 def step (_ : Unit) (ts : List String) : Unit × String :=
   match ts with
   | [line] =>
@@ -314,7 +342,7 @@ def step (_ : Unit) (ts : List String) : Unit × String :=
             | none => ((), "unmodelled params")
             | some params =>
               let ordered := !q.ret.orderBy.isEmpty
-              let graphs := (graphsFor gseed nrandom exN exE).filter (graphAllowed q)
+              let graphs := graphsWithin q gseed nrandom exN exE
               let outs := graphs.map (compareOn km params q s ordered (bagColumns q))
               ((), summarize outs)
       | _, _, _, _, _ => ((), "bad-op")
